@@ -40,9 +40,11 @@ func newPoint(in grpprog.Inst) kyber.Point {
 	return p
 }
 
-func decodePoint(in grpprog.Inst, b []byte) outcome {
+func decodePoint(in grpprog.Inst, b []byte) outcome { return decodePointInto(newPoint(in), b) }
+
+// decodePointInto decodes into the given (possibly used) receiver.
+func decodePointInto(p kyber.Point, b []byte) outcome {
 	var o outcome
-	p := newPoint(in)
 	var err error
 	pan, msg := vh.Try(func() { err = p.UnmarshalBinary(append([]byte{}, b...)) })
 	if pan {
@@ -68,9 +70,10 @@ func decodePoint(in grpprog.Inst, b []byte) outcome {
 	return o
 }
 
-func decodeScalar(g kyber.Group, b []byte) outcome {
+func decodeScalar(g kyber.Group, b []byte) outcome { return decodeScalarInto(g.Scalar(), b) }
+
+func decodeScalarInto(s kyber.Scalar, b []byte) outcome {
 	var o outcome
-	s := g.Scalar()
 	var err error
 	pan, msg := vh.Try(func() { err = s.UnmarshalBinary(append([]byte{}, b...)) })
 	if pan {
@@ -282,8 +285,8 @@ func memberOf(in grpprog.Inst, o outcome, bnTwist map[string]fp2) string {
 		}
 		return ""
 	}
-	if strings.HasSuffix(in.Name, ".G1") || strings.HasSuffix(in.Name, ".G2") {
-		// BLS12-381: prime-order subgroup
+	if strings.HasSuffix(in.Name, ".G1") || strings.HasSuffix(in.Name, ".G2") || validatesOrder[in.Name] {
+		// BLS12-381 (and every decoder that validates the order on the unchanged tree): prime-order subgroup
 		isNull, err := orderTimes(in, o.pt)
 		if err != "" {
 			return "r*P panicked: " + err
@@ -328,6 +331,13 @@ func unreducedCoordinate(p kyber.Point) (why string) {
 	}
 	return ""
 }
+
+// validatesOrder: decoders outside the property's explicit list that, on the unchanged tree,
+// refuse elements outside the order-r subgroup (the kilic target group checks e^r = 1 in
+// FromBytes).  What a decoder validates it must keep validating: accepted => r*P = O.
+// The other target groups (bn256, bn254, circl, gnark) do not validate GT membership;
+// that is recorded in the distribution, not reported.
+var validatesOrder = map[string]bool{"kilic.GT": true}
 
 func describe(b []byte) map[string]interface{} {
 	return map[string]interface{}{"len": len(b), "hex": vh.Hex(b)}
